@@ -247,6 +247,7 @@ func TestC15Standin(t *testing.T) {
 			full, _ := os.ReadFile(path)
 			refused := 0
 			wrong := 0
+			afterTorn := 0
 			for cut := twoRecords + 1; cut < int64(len(full)); cut++ {
 				p2 := filepath.Join(dir, "torncut.cache")
 				os.WriteFile(p2, full[:cut], 0o644)
@@ -263,7 +264,38 @@ func TestC15Standin(t *testing.T) {
 						wrong++
 					}
 				}
+				// the file must be usable after such an open: a new record is stored and read back, in
+				// this session and after another reopen, and the old records stay readable
+				if cut%7 == 0 {
+					nv := 3 % len(vars)
+					if err := c2.setData(4, c15t0, vars[nv]); err != nil {
+						afterTorn++
+					} else {
+						for id, v := range map[uint64]int{1: 0, 2: 1, 4: nv} {
+							got, _, _, err := c2.data(id, c15t0)
+							if err != nil || c15equal(got, vars[v]) != "" {
+								afterTorn++
+							}
+						}
+						c2.Close()
+						if c3, err := NewCacheFile(p2); err != nil {
+							afterTorn++
+						} else {
+							for id, v := range map[uint64]int{1: 0, 2: 1, 4: nv} {
+								got, _, _, err := c3.data(id, c15t0)
+								if err != nil || c15equal(got, vars[v]) != "" {
+									afterTorn++
+								}
+							}
+							c3.Close()
+						}
+						continue
+					}
+				}
 				c2.Close()
+			}
+			if afterTorn > 0 {
+				failures = append(failures, c15failure{Class: "store-after-torn-tail", Input: "3-record file cut inside the last record, opened, record 4 stored", Detail: fmt.Sprintf("%d reads wrong or failing after storing into a file that was opened with a torn tail", afterTorn)})
 			}
 			if refused > 0 {
 				failures = append(failures, c15failure{Class: "torn-tail-refuses-open", Input: fmt.Sprintf("3-record file cut inside the last record (%d cut points)", int64(len(full))-twoRecords-1), Detail: fmt.Sprintf("%d cut points make NewCacheFile fail", refused)})
